@@ -95,6 +95,36 @@ Section Normalize.
         end
     end.
 
+  (** The labels of every form-changing step taken by the nested _normalize calls of
+      [nfr fuel d e] (same recursion as [nfr]); used to state soundness modulo KF-ROOT and by the
+      driver to attribute a failure to that known finding. *)
+  Fixpoint nfr_trace (fuel : nat) (d : nat) (e : E) {struct d} : list (label (T:=T)) :=
+    match d with
+    | O => []
+    | S d' =>
+        let ntrace := fun t : E =>
+          reduce_trace N fuel t ++ nfr_trace fuel d' (fully_reduce N fuel t) in
+        match e with
+        | Const _ | Var _ => []
+        | Add l =>
+            let (negs, non_negs) := partition_by is_Neg l in
+            flat_map ntrace non_negs ++ flat_map (fun t => ntrace (inner_of t)) negs
+        | Mul l =>
+            let (recips, non_recips) := partition_by is_Recip l in
+            flat_map ntrace non_recips ++ flat_map (fun t => ntrace (inner_of t)) recips
+        | Minus a b | Divide a b | Power a b => nfr_trace fuel d' a ++ nfr_trace fuel d' b
+        | Neg a | Recip a | Sin a | Cos a | NthPow a _ | NthRoot a _ | Exp a _ | Log a _ =>
+            nfr_trace fuel d' a
+        end
+    end.
+
+  Definition normalize_trace (fuel d : nat) (e : E) : list (label (T:=T)) :=
+    reduce_trace N fuel e ++ nfr_trace fuel d (fully_reduce N fuel e).
+
+  (* no application of the even/even root-of-power rule (KF-ROOT) anywhere in the trace *)
+  Definition good_trace (tr : list (label (T:=T))) : bool :=
+    forallb (fun lab => negb (bad_label lab)) tr.
+
   (* Expression._normalize *)
   Definition normalize (fuel d : nat) (e : E) : option E :=
     nfr fuel d (fully_reduce N fuel e).
